@@ -380,6 +380,11 @@ def engine_projection(ctx, results, what_checks):
         if "imports" in what_checks and impl["status"] == "ok" and model["status"] == "ok":
             if impl.get("imports") != model.get("imports"):
                 probs.append(f"imports differ: implementation {impl.get('imports')}, specification {model.get('imports')}")
+        if "content" in what_checks and not probs and impl["status"] == "ok" and model["status"] == "ok" and impl.get("tree") != model.get("tree"):
+            # the same changes matched, at the same places as far as the comparisons above can tell, and still the results are
+            # different trees (what was generated at a site differs below or above the path compared)
+            probs.append("the resulting tree differs from the specification's although the outcome, the decisions and the rewritten places agree: "
+                         f"implementation changed {fmt_paths(ci or [])}, specification {fmt_paths(cm or [])}")
         if "full" in what_checks:
             probs.append("canonical result differs from the model's")
         if probs:
@@ -403,6 +408,8 @@ def strip_parens(sx):
     if len(sx) == 3 and sx[0] == "F" and isinstance(sx[2], list) and sx[2][:2] == ["S", "ast.ParenExpr"] and len(sx[2]) == 5:
         return strip_parens(sx[2][3])
     return [strip_parens(x) for x in sx]
+
+CLI_FORMS = ["flags", "unrelated-after", "list", "absolute", "unrelated-first-then-list", "both-ways", "first-flag-rest-list", "dot", "twice"]
 
 def cli_projection(ctx, results, what_checks, n):
     """The same projection with the built binary as the implementation: a sample of the engine cases is run through
@@ -455,13 +462,33 @@ def cli_projection(ctx, results, what_checks, n):
         root = os.path.join(d, f"c{k}")
         os.makedirs(root)
         pargs = []
+        # how the patches and the target reach the binary varies from case to case - several -p, a -P list, both, an unrelated
+        # patch that matches nothing in front or behind, the target named relatively, absolutely or both ways: the same run
+        names = []
         for i, ptxt in enumerate(inp["patches"]):
             with open(os.path.join(root, f"p{i}.patch"), "w") as f:
                 f.write(ptxt)
-            pargs += ["-p", f"p{i}.patch"]
+            names.append(f"p{i}.patch")
+        with open(os.path.join(root, "unrelated.patch"), "w") as f:
+            f.write("@@\nvar x expression\n@@\n-zzzAbsentName(x, 1)\n+zzzGoneName(x)\n")
+        how = inp.get("cli_form") or CLI_FORMS[k % len(CLI_FORMS)]
+        if how == "unrelated-after":
+            names.append("unrelated.patch")
+        if how in ("list", "unrelated-first-then-list"):
+            with open(os.path.join(root, "list.txt"), "w") as f:
+                f.write("".join(n + "\n" for n in names))
+            pargs = (["-p", "unrelated.patch"] if how == "unrelated-first-then-list" else []) + ["-P", "list.txt"]
+        elif how == "first-flag-rest-list" and len(names) > 1:
+            with open(os.path.join(root, "list.txt"), "w") as f:
+                f.write("".join(n + "\n" for n in names[1:]))
+            pargs = ["-P", "list.txt", "-p", names[0]]          # flags come first whatever the order on the command line
+        else:
+            for n in names:
+                pargs += ["-p", n]
         with open(os.path.join(root, "a.go"), "w") as f:
             f.write(inp["src"])
-        code, out, err = cl.gopatch(ctx.gopatch, root, pargs + ["--print-only", "-v", "a.go"])
+        target = {"absolute": [os.path.join(root, "a.go")], "both-ways": ["a.go", os.path.join(root, "a.go")], "dot": ["."], "twice": ["./a.go", "a.go"]}.get(how, ["a.go"])
+        code, out, err = cl.gopatch(ctx.gopatch, root, pargs + ["--print-only", "-v"] + target)
         text = out.decode("utf-8", "replace")
         body = text[: text.rstrip("\n").rfind("\n") + 1] if "\n" in text.rstrip("\n") else ""
         last = text.rstrip("\n").split("\n")[-1] if text.strip() else ""
@@ -483,6 +510,11 @@ def cli_projection(ctx, results, what_checks, n):
         line = canon[k] if k < len(canon) else "ERR"
         if line.startswith("ERR"):
             ctx.count("cli_tie:output-unparseable")
+            if patched and model["status"] == "ok" and impl["status"] == "ok":
+                ctx.violation("the binary reports the file patched (exit 0) but what --print-only prints for it does not parse as one Go file, "
+                              f"while engine and specification give a result (patches and target given as: {inp.get('cli_form') or CLI_FORMS[k % len(CLI_FORMS)]})",
+                              replay_payload(dict(inp, id=str(inp.get("id")) + " (through the gopatch binary)"), impl, model,
+                                             {"printed": open(outp).read()[-1500:], "stderr": err[-400:], "given_as": CLI_FORMS[k % len(CLI_FORMS)]}))
             continue
         csx = parse_sx("(res x " + line + ")")
         t = sx_field(csx[2:], "tree")
@@ -492,7 +524,7 @@ def cli_projection(ctx, results, what_checks, n):
                "tree": strip_parens(t[0]) if t else None}
         o2 = dict(orig, tree=strip_parens(orig["tree"]))
         m2 = dict(model, tree=strip_parens(model["tree"]), missed="?", typed="?")
-        inp2 = dict(inp, id=str(inp.get("id")) + " (through the gopatch binary, --print-only)")
+        inp2 = dict(inp, id=str(inp.get("id")) + f" (through the gopatch binary, --print-only; patches and target given as: {inp.get('cli_form') or CLI_FORMS[k % len(CLI_FORMS)]})")
         same2 = (cli["tree"] == m2["tree"] and cli["imports"] == m2.get("imports") and cli["pkg"] == m2.get("pkg") and patched == want_match)
         ctx.count("cli_tie:" + ("same" if same2 else "differs"))
         tuples.append((inp2, o2, cli, m2, same2))
@@ -558,6 +590,49 @@ REFUSED = [
     ([_SLOTS, _G1], _SRC_SLOTS2, "no site admissible at all, then applies"), ([_G1, _SLOTS, _G2], _SRC_SLOTS2, "no site admissible between two that apply"),
     ([_G1, _G2, _SLOTS], _SRC_SLOTS2, "two apply, then no site admissible at all"),
 ]
+
+_LONG_FIRST = ("# A long first patch file: positions in the second one, read as positions in this one, fall anywhere in it.\n@@\nvar a, b, c expression\n@@\n"
+               "-configureEverything(a, b, c)\n+configure(\n+  withFirst(a),\n+  withSecond(b),\n+  withThird(c),\n+  withDefaults(...),\n+)\n" + "# padding\n" * 12)
+SOURCES_TABLE = [
+    (["@@\n@@\n-foo(...)\n+bar(...)\n", "@@\n@@\n-bar(...)\n+baz(...)\n"], "package a\n\nfunc f() {\n\tfoo(1)\n\tbar(2)\n}\n"),
+    (["@@\n@@\n-bar(...)\n+baz(...)\n", "@@\n@@\n-foo(...)\n+bar(...)\n"], "package a\n\nfunc f() {\n\tfoo(1)\n\tbar(2)\n}\n"),
+    (["@@\nvar x expression\n@@\n-wrap(x)\n+wrap(x, len(x))\n", "@@\nvar x, y expression\n@@\n-wrap(x, y)\n+pack(y, x)\n"], "package a\n\nfunc f(s string) {\n\twrap(s)\n\twrap(s, 3)\n}\n"),
+    (["@@\n@@\n+import \"log\"\n\n-fmt.Println(...)\n+log.Print(...)\n"], "package a\n\nimport (\n\t\"fmt\"\n\t\"os\"\n)\n\nfunc f() {\n\tfmt.Println(os.Args)\n}\n"),
+    (["@@\nvar x expression\n@@\n-x == x\n+true\n"], "package a\n\nfunc f(p, q int) bool {\n\treturn p == p || (p+q) == (p+q) || p == q\n}\n"),
+    (["@@\nvar x expression\n@@\n-send(x)\n+send(checked(x))\n"] * 2, "package a\n\nfunc f(v int) {\n\tsend(v)\n}\n"),
+    (["@@\nvar x expression\n@@\n-send(x)\n+send(checked(x))\n", "# Wrap what is sent.\n@ wrap @\nvar x expression\n@@\n# the call\n-send(x)\n+send(checked(x))\n"],
+     "package a\n\nfunc f(v int) {\n\tsend(v)\n}\n"),
+    ([_LONG_FIRST, "@@\n@@\n-handle := foo(ctx, ...)\n-use(handle)\n+use(bar(ctx, ...))\n"],
+     "package a\n\nfunc f() {\n\tprepare()\n\thandle := foo(ctx, 1, \"two\", three())\n\tuse(handle)\n}\n"),
+    (["@@\n@@\n-zzzFirstAbsent()\n+zzzFirstGone()\n" + "# pad\n" * 6, "@@\n@@\n-foo(ctx, ...)\n-done()\n+bar(ctx, ...)\n+finished()\n"],
+     "package a\n\nfunc f() {\n\tbefore()\n\tfoo(ctx, 1, \"two\", three())\n\tdone()\n}\n"),
+]
+
+def patch_sources_family(ctx, checks=frozenset({"status", "content", "decisions"})):
+    """The same patches and the same file, given to the binary in every form: several -p, a -P list, -p and -P together (flags first),
+    an unrelated patch that matches nothing in front or behind, the target named relatively, absolutely, both ways, as its
+    directory. Order-sensitive pairs of patches, a patch given twice (verbatim and re-laid-out), a change whose pattern is
+    metavariables only, an import that a change stops using without naming it, a statement patch with elisions loaded after a
+    long first patch: whatever the form, the result is the model's."""
+    cases = []
+    for t, (patches, src) in enumerate(SOURCES_TABLE):
+        for form in CLI_FORMS:
+            cases.append({"id": f"sources{t}-{form}", "patches": patches, "src": src, "cli_form": form})
+    # a statement patch with an elision on a '-' line and its partner on a '+' line, loaded after another patch file: whatever
+    # the lines of the first file look like (where an offset of the second file would fall in it)
+    second = "@@\nvar x expression\n@@\n-foo(x, ...)\n+bar(x, ...)\n done()\n"
+    ssrc = "package p\n\nfunc f() {\n\tfoo(ctx, 1, \"two\", three())\n\tdone()\n}\n"
+    for n in range(1, 10 if ctx.tier == "quick" else 16):
+        for m in range(1, 10 if ctx.tier == "quick" else 16, 1 if ctx.tier != "quick" else 2):
+            first = f"@@\n@@\n-{'a' * n}()\n+{'b' * m}()\n somethingLong()\n"
+            cases.append({"id": f"sources-geometry-{n}-{m}", "patches": [first, second], "src": ssrc, "cli_form": "flags" if (n + m) % 2 else "list"})
+    res = run_engine_batch(ctx, ["-inputs", write_jsonl(ctx, cases)], "sources")
+    ctx.count("patch_sources_cases", len(res))
+    if len(res) != len(cases):
+        ctx.violation("a case of the patch-sources table is not answered by the engine or the model",
+                      {"input": {"missing": sorted(set(c["id"] for c in cases) - set(r[0]["id"] for r in res))[:10]}})
+    engine_projection(ctx, res, set(checks))
+    cli_projection(ctx, res, set(checks) - {"where", "converse"}, 6 * len(res))
 
 def refused_rewrites_family(ctx, checks=frozenset({"status", "content", "decisions"})):
     """What happens when a change is refused: the engine against the model (status, result), the binary in its three modes (a
@@ -654,6 +729,7 @@ def c01(ctx):
     very_large_patterns(ctx, {"status", "where", "converse", "decisions"})
     relaid_family(ctx, (("c01", 120), ("c05", 60)), {"status", "where", "converse"})
     refused_rewrites_family(ctx)
+    patch_sources_family(ctx)
     ctx.rule = rule + (" A second batch uses generator mode c02 (repeated metavariables with identical, almost identical and different "
                        "fillers), a third one mode c09 (chains of changes in which a later change matches only what an earlier one produced).")
 
@@ -827,6 +903,7 @@ def c02(ctx):
     c02_generated_sites(ctx)
     kinds_and_names_family(ctx, {"decisions", "where", "content"})
     very_large_patterns(ctx, {"decisions", "where", "content"})
+    patch_sources_family(ctx)
     ctx.rule = rule + (" A directed family runs two changes of which the second binds its metavariables at several sites inside "
                        "code the first one generated (equal and different fillers, also of equal length; as two patch files and as one).")
 
@@ -911,6 +988,7 @@ def c03(ctx):
                  "(and in expression positions): hand-written expectation = the '-' text replaced by the '+' text at every site.")
     c03_type_positions(ctx)
     refused_rewrites_family(ctx)
+    patch_sources_family(ctx)
 
 TYPE_PLUS = ["OrderedSet[T]", "pkg.Map[string, T]", "*T", "[]T", "[4]T", "map[string]T", "chan T", "<-chan T", "func(T) error", "(T)",
              "struct{ v T }", "interface{ M() T }", "pkg.Set", "Set2", "G[T, U]", "[]*pkg.G[T]"]
@@ -999,6 +1077,7 @@ def c04(ctx):
     split_tie(ctx, [{"id": r[0].get("id"), "patch": p} for r in res for p in r[0].get("patches", [])])
     elisions_over_generated_code(ctx)
     repetitive_runs_family(ctx)
+    patch_sources_family(ctx)
 
 ELISION_CHAINS = [
     (["@@\n@@\n-fetch(...)\n+fetchContext(ctx, ...)\n", "@@\n@@\n-fetchContext(ctx, ...)\n+client.Fetch(ctx, ...)\n"],
@@ -1099,6 +1178,9 @@ def c05(ctx):
     rule = ctx.rule
     bystanders_family(ctx)
     refused_rewrites_family(ctx, {"status", "outside", "content"})
+    patch_sources_family(ctx, {"status", "outside", "content"})
+    # "no code outside a rewritten fragment is duplicated": also not by a write that goes wrong
+    unwritable_target_family(ctx, "C05")
     # code that only resembles an instance (a repeated metavariable over code that differs, an identifier metavariable over
     # a selector) is outside every rewritten fragment
     kinds_and_names_family(ctx, {"outside", "decisions", "where"})
@@ -1416,6 +1498,13 @@ CLI_RULE = ("scenarios = a patch (from /repo/testdata or generated as for the en
             "under test are compared with the observed run (disk digest incl. mtime and inode). Non-trivial = at least one "
             "file patched or one failure; distinct = distinct (patch, file set, flags).")
 
+def silent_unaccounted(ctx, sc, opts, infos):
+    """every file of a verbose run is accounted for by one line - skipped, patched or failed - or by a diagnostic"""
+    bad = [i for i in (infos or []) if i["apply"][0] == "unknown" and not str(i["apply"][1]).strip()]
+    if bad and len([v for v in ctx.violations if "accounts for" in v[0]]) < 3:
+        ctx.violation(f"{bad[0]['provided']}: processed alone with --print-only -v, the log accounts for it with none of 'skipped', 'patched', 'failed' "
+                      "and no diagnostic says why", {"input": {"patches": sc.patches, "files": sc.files, "flags": flags_of(opts)}, "file": bad[0]["provided"]})
+
 def cli_family(ctx, kinds, optsets, categories, n_quick, n_thorough, gen_mode="mix", targets_fn=None, post=None):
     ctx.rule = CLI_RULE + f" Compared for this property: {sorted(categories)}; flag sets: {optsets}."
     rng = random.Random(ctx.seed)
@@ -1448,6 +1537,7 @@ def cli_family(ctx, kinds, optsets, categories, n_quick, n_thorough, gen_mode="m
             ctx.evaluations += 1
             if kind == "unknown":
                 ctx.count("unclassifiable")
+                silent_unaccounted(ctx, sc, opts, infos)
                 continue
             probs = compare_run(work, opts, infos, pred, obs)
             ctx.count("flags:" + "+".join(opts or ["default"]))
@@ -1568,7 +1658,8 @@ def c06(ctx):
     scen += corpus_scenarios("C06")
     decisions.update(model_decisions(ctx, scen))
     library_reuse_family(ctx, "C06: a source no change applies to comes back as it is, with no error, whatever was applied before")
-    run_scenarios(ctx, scen, [[], ["print"], ["diff"], ["print", "si"], ["sg"]], {"unmatched", "stdout", "exit"}, post)
+    run_scenarios(ctx, scen, [[], ["print"], ["diff"], ["print", "si"], ["sg"], ["diff", "print"], ["print", "diff", "v"], ["print", "v"], ["diff", "print", "sg", "si"]],
+                  {"unmatched", "stdout", "exit"}, post)
     # an unmatched file named more than once (relatively, absolutely, through its directory): still one file - echoed once by
     # --print-only, logged once, untouched
     um_src = "package a\n\nfunc onlyHere() { zzzUnmatched(41) }\n"
@@ -1871,6 +1962,14 @@ def c12_body(ctx, post):
     # F17: a patched file with CRLF line endings
     sc = Scenario("f17", ["@@\n@@\n-zzz(1)\n+yyy(1)\n"], {"crlf.go": "package odd\r\n\r\nfunc crlf() {\r\n\tzzz(1)\r\n}\r\n"}, "crlf-matched")
     run_scenarios(ctx, [sc], [["diff"], ["print"], []], {"write", "stdout", "desc", "diffapply"}, None)
+    # a change that applies and leaves the bytes as they were (the '+' side spells the '-' side), next to one that changes
+    # something: every mode with and without -v treats the file as patched
+    ident = [Scenario(f"identity{k}", [pt], {"same.go": "package a\n\nfunc f(v int) {\n\tsend(v, nil)\n}\n", "other.go": "package a\n\nfunc g(v int) {\n\tsend(v, 1)\n\trecv(v)\n}\n"},
+                      "a change that rewrites a file to the bytes it had")
+             for k, pt in enumerate(["@@\nvar x expression\n@@\n-send(x, nil)\n+send(x, nil)\n",
+                                     "# Keep nil sends as they are.\n@@\nvar x expression\n@@\n-send(x, nil)\n+send(x, nil)\n\n@@\nvar x expression\n@@\n-recv(x)\n+receive(x)\n"])]
+    run_scenarios(ctx, ident, [["print", "v"], ["print"], [], ["v"], ["diff", "v"], ["diff"], ["diff", "print", "v"], ["print", "v", "si"]],
+                  {"write", "stdout", "desc", "diffapply"}, None)
     # how the file ends: blank lines, blanks, a comment, no newline at all - the printed diff must take the original to the
     # very bytes the other modes give, its last line included
     invis = {"esc": "\x1b[31mred\x1b[0m", "formfeed": "a\x0cb", "bidi": "left\u202eright\u202c", "zero-width": "a\u200bb\ufeffc", "bell-backspace": "x\x07\x08y",
@@ -2334,6 +2433,7 @@ def run_scenarios(ctx, scen, optsets, categories, post=None):
             ctx.evaluations += 1
             if pred is None:
                 ctx.count("unclassifiable")
+                silent_unaccounted(ctx, sc, opts, infos)
                 continue
             ctx.count("flags:" + "+".join(opts or ["default"]))
             ctx.count("outcomes:" + ",".join(sorted(set(i["apply"][0] for i in infos))))
@@ -2495,8 +2595,14 @@ def c14(ctx):
             files = {f"{pref}_tmpl{j:02d}.go": content for j in range(nbad)}
             files.update({nm: good.replace("ok()", f"ok{j}()") for j, nm in enumerate(("a_good.go", "n_good.go", "z/good.go", "zzz_good.go"))})
             scen.append(Scenario(f"broken{k}_{pos}", [MISFIT[0][0]], files, "many syntax errors in the neighbours"))
+    # files whose results are several KiB each, with the log of -v on the same stream: what is printed for a file is printed
+    # whole, whatever was printed before it
+    bigf = lambda tag, n_: "package a\n" + "".join(f"\nfunc {tag}{i}(count int) int {{\n\treturn foo(count + {i}) // {tag}\n}}\n" for i in range(n_))
+    for k, sizes in enumerate(((30, 45, 28), (70, 3, 70, 5), (12, 13, 14, 15, 16, 17))):
+        scen.append(Scenario(f"large-verbose{k}", [MISFIT[1][0]], {f"{chr(97 + j)}_large.go": bigf(chr(97 + j), n_) for j, n_ in enumerate(sizes)},
+                             "several KiB of results per file"))
     scen += corpus_scenarios("C14")
-    optsets = [["print"], ["diff"], [], ["print", "sg"], ["si"], ["print", "si"]]
+    optsets = [["print"], ["diff"], [], ["print", "sg"], ["si"], ["print", "si"], ["print", "v"], ["diff", "v"]]
     def one(sc):
         out = []
         root, pargs = setup_scenario(ctx, sc)
@@ -3203,12 +3309,47 @@ def c15_through_a_linked_directory(ctx):
                           {"input": {"arguments": args, "tree": "real/sub/x.go, real/y.go, link -> real", "patch": patch},
                            "same_file_under_two_names_through_a_symlinked_directory": mixed, "result": got})
 
+def oddly_named_targets(ctx):
+    patch = "@@\nvar x expression\n@@\n-foo(x)\n+bar(x)\n"
+    body = lambda k: f"package a\n\nfunc f{k}() {{\n\tfoo({k})\n}}\n"
+    names = ["-", "~", "$HOME", "*", "a b", "@list", "+x", "=y"]     # (targets spelled like flags are refused by the option parser, even after "--": reported, exit 1)
+    for nm in names:
+        for how in ("flag", "list", "stdin"):
+            for stdin in ("", "other\n", None):
+                if how == "stdin" and stdin != "":
+                    continue
+                root = ctx.scratch("odd-target")
+                files = {f"{nm}/a.go": body(1), f"{nm}/sub/b.go": body(2), "other/c.go": body(3), "p.patch": patch, "list.txt": "p.patch\n"}
+                cl.write_tree(root, files)
+                args = {"flag": ["-p", "p.patch"], "list": ["-P", "list.txt"], "stdin": []}[how]
+                sep = ["--"] if nm.startswith("-") and nm != "-" else []
+                try:
+                    r = subprocess.run([ctx.gopatch] + args + sep + [nm], cwd=root, input=(patch if how == "stdin" else (stdin or "")).encode(),
+                                       stdout=subprocess.PIPE, stderr=subprocess.PIPE, timeout=30)
+                    code, err = r.returncode, r.stderr.decode("utf-8", "replace")
+                except subprocess.TimeoutExpired:
+                    code, err = "timeout", ""
+                ctx.evaluations += 1
+                ctx.count("oddly_named_targets")
+                ctx.nontrivial.add(f"oddtarget:{nm}:{how}:{stdin!r}")
+                got = {rel: open(os.path.join(root, rel)).read() for rel in files if rel.endswith(".go")}
+                want = {rel: (src.replace("foo(", "bar(") if rel.startswith(nm + "/") else src) for rel, src in files.items() if rel.endswith(".go")}
+                if code != 0 or got != want:
+                    wrong = sorted(rel for rel in want if got[rel] != want[rel])
+                    ctx.violation(f"the target {nm!r} (a directory of that name; patch given by {how}, standard input {stdin!r}): exit {code}; "
+                                  f"not as requested: {wrong or 'exit status only'} - exactly the files beneath it are to be processed",
+                                  {"input": {"files": sorted(files), "args": args + sep + [nm], "stdin": stdin if how != "stdin" else "the patch"}, "stderr": err[-400:]})
+                shutil.rmtree(root, ignore_errors=True)
+
 @prop("C15")
 def c15(ctx):
     facts_tie(ctx)
     c15_through_a_linked_directory(ctx)
     # "every requested file": also the ones after a file whose result could not be written
     unwritable_target_family(ctx, "C15")
+    # targets whose names look like options or like "standard input", with the patch given by -p, by -P and on standard input,
+    # and with something or nothing on standard input: a target is a path, whatever it is called
+    oddly_named_targets(ctx)
     ctx.rule = ("directory trees (nesting up to 4; directory names incl. vendor, testdata, .git, _tmp, a.go, vendors; files incl. "
                 ".hidden.go, _under.go, non-.go names, symlinks to files and directories, dangling links, fifos) are created on disk; "
                 "argument lists mix '.', './...', sub-directories with and without '...', absolute paths, '../<cwd>/x', 'd/..', 'd/../...', explicit "
@@ -3674,8 +3815,54 @@ def c19_several_faults(ctx, rng):
             ctx.violation("; ".join(probs[:3]), {"input": {"patch": c["patch"], "injected_at": c["expects"]}, "implementation": impl[-600:],
                                                   "model": model[-600:], "reproduce": "gopatch -p p.patch ."})
 
+REJECTED_PATCHES = [
+    # (patch, line, column of the offending token)
+    ("@@\nvar x identifer\n@@\n-foo(x)\n+bar(x)\n", 2, 7),
+    ("# fix\n@ na!me @\nvar x expression\n@@\n-foo(x)\n+bar(x)\n", 2, 5),
+    ("@@\nvar x expression\n@@\n-foo(x)\n+bar(x)\n\n# second\n@@\nvar y, y expression\n@@\n-baz(y)\n+qux(y)\n", 9, 8),
+]
+
+def rejected_patch_whatever_the_targets(ctx):
+    """"Every rejected patch yields at least one diagnostic that names the patch file": whatever the targets are - Go files, a
+    directory without any, a file that is not Go, a missing path next to a good one, nothing but excluded directories - and
+    however the patch is given; and nothing is rewritten."""
+    tree = {"a.go": "package a\n\nfunc f() { foo(1) }\n", "empty/.keep": "", "only/testdata/t.go": "package t\n\nfunc g() { foo(2) }\n",
+            "only/vendor/v.go": "package v\n", "only/_x/u.go": "package u\n", "notgo.txt": "foo(1)\n", "sub/b.go": "package b\n\nfunc h() { baz(3) }\n"}
+    targets = [["."], ["a.go"], ["empty"], ["./empty/..."], ["only"], ["only/..."], ["notgo.txt"], ["a.go", "missing.go"], ["missing/..."], ["empty", "only"]]
+    for pk, (patch, line, col) in enumerate(REJECTED_PATCHES):
+        for how in ("flag", "list", "stdin"):
+            for tk, tg in enumerate(targets):
+                for flags in ([], ["-d"], ["-v"], ["--print-only"]):
+                    if (pk + tk + len(flags) + len(how)) % 2 and ctx.tier == "quick":
+                        continue
+                    root = ctx.scratch("rejected")
+                    cl.write_tree(root, dict(tree, **{"bad.patch": patch, "list.txt": "bad.patch\n"}))
+                    before = cl.digest(root)
+                    args = {"flag": ["-p", "bad.patch"], "list": ["-P", "list.txt"], "stdin": []}[how] + flags + tg
+                    try:
+                        r = subprocess.run([ctx.gopatch] + args, cwd=root, input=(patch if how == "stdin" else "").encode(), stdout=subprocess.PIPE, stderr=subprocess.PIPE, timeout=30)
+                        code, err = r.returncode, r.stderr.decode("utf-8", "replace")
+                    except subprocess.TimeoutExpired:
+                        code, err = "timeout", ""
+                    ctx.evaluations += 1
+                    ctx.count("rejected_patch_runs")
+                    ctx.nontrivial.add(f"rejected:{pk}:{how}:{tk}:{flags}")
+                    where = ("stdin" if how == "stdin" else "bad.patch") + f":{line}:{col}"
+                    probs = []
+                    if code == 0:
+                        probs.append("the exit status is 0")
+                    if where not in err:
+                        probs.append(f"no diagnostic names {where}")
+                    if cl.digest(root) != before:
+                        probs.append("something was rewritten")
+                    if probs:
+                        ctx.violation(f"a patch with a bad header or metavariable section (offending token at {where}), targets {tg or 'none'}: " + "; ".join(probs),
+                                      {"input": {"patch": patch, "args": args, "files": sorted(tree)}, "exit": code, "stderr": err[-500:]})
+                    shutil.rmtree(root, ignore_errors=True)
+
 @prop("C19")
 def c19(ctx):
+    rejected_patch_whatever_the_targets(ctx)
     ctx.rule = ("multi-change patches (1..4 changes assembled from generated single-change patches, with random '#' and blank lines "
                 "before headers and inside metavariable sections) into which one fault is injected at a generator-known line and "
                 "column: bad character in a change name, text where a header is expected, unknown metavariable type, duplicate "
@@ -4072,6 +4259,8 @@ def c13(ctx):
             ctx.violation(f"the effect of the patch changed under the layout transformation {'+'.join(done)}",
                           {"input": {"original": oinp["patches"][0], "variant": vinp["patches"][0], "src": oinp["src"]},
                            "original_trace": oimpl["trace"], "variant_trace": vimpl["trace"]})
+    # a patch given twice, verbatim and laid out anew, in every form a command line can take: applied twice either way
+    patch_sources_family(ctx)
     # pairs of layouts of one patch, written out: elisions that share a patch line against one elision per line; a blank line
     # between the second @@ and a statement patch whose first line carries an elision
     LAYOUT_PAIRS = [
@@ -4264,6 +4453,8 @@ TARGET_ARGS = [["nosuch.go"], ["a.go", "nosuch.go"], ["nosuch.go", "a.go"], ["./
                ["a.go/"], ["a.go/..."], ["a.go/x.go"], ["x" * 300 + ".go"], ["d/" * 2100 + "x.go"], ["..."], ["/..."[1:]], ["/nonexistent-root/x.go"],
                ["locked/../nosuch.go"], ["./a.go", "./././nosuch/../a.go"], ["-"], ["--", "nosuch.go"], ["a.go", "a.go", "nosuch.go", "nosuch.go"]]
 
+UPWARD_ARGS = [["../../../a.go"], ["../../.."], ["../../../dir.go/..."], ["../../../a.go", "../../../nosuch.go"], ["../../../locked/x.go", "."], ["../../../../../../../../../../nosuch.go"]]
+
 def mutate_bytes(rng, s):
     b = bytearray(s.encode())
     for _ in range(rng.randint(1, 3)):
@@ -4440,8 +4631,16 @@ def c08(ctx):
         with open(os.path.join(root, "locked", "x.go"), "w") as f:
             f.write("package l\n\nfunc h() { foo(3) }\n")
         code, out, err = cl.gopatch(ctx.gopatch, root, ["-p", "p.patch", "--print-only"] + args, timeout=20)
+        res = [("targets " + " ".join(a[:40] for a in args), code, err.decode("utf-8", "replace"))]
+        if k < len(UPWARD_ARGS):
+            # the same tree seen from a directory deep inside it: targets that climb out of the working directory
+            deep = os.path.join(root, "deep", "deeper", "and-deeper-still-so-that-the-way-up-is-long")
+            os.makedirs(deep)
+            for flags in (["--print-only"], ["--diff"], []):
+                c2, o2, e2 = cl.gopatch(ctx.gopatch, deep, ["-p", os.path.join(root, "p.patch")] + flags + UPWARD_ARGS[k], timeout=20)
+                res.append((f"targets {' '.join(UPWARD_ARGS[k])} {' '.join(flags)} from three directories down", c2, e2.decode("utf-8", "replace")))
         shutil.rmtree(root, ignore_errors=True)
-        return [("targets " + " ".join(a[:40] for a in args), code, err.decode("utf-8", "replace"))]
+        return res
     with ThreadPoolExecutor(max_workers=16) as ex:
         touts = list(ex.map(target_one, range(len(TARGET_ARGS))))
     for res in touts:
@@ -4534,8 +4733,52 @@ def sig_dup_import(sig, what, payload):
     paths = re.findall(r'^\s*(?:import\s+)?(?:[\w.]+\s+)?"([^"]+)"\s*$', src, re.M)
     return len(paths) != len(set(paths))
 
+def c10_environment(ctx):
+    """Whether a guard holds is decided by the patch and the file: not by what lies next to them on disk (the sources of the
+    imported package under vendor/, $GOPATH/src, $HOME/go/src with another package name), the working directory or the environment."""
+    path = "example.com/bar"
+    patch = f"@@\nvar x expression\n@@\n import \"{path}\"\n\n-old(x)\n+renewed(x)\n"
+    files = {"named.go": f"package a\n\nimport bar \"{path}\"\n\nfunc f() {{ old(bar.V) }}\n",
+             "othername.go": f"package a\n\nimport baz \"{path}\"\n\nfunc g() {{ old(baz.V) }}\n",
+             "unnamed.go": f"package a\n\nimport \"{path}\"\n\nfunc h() {{ old(bar.V) }}\n",
+             "absent.go": "package a\n\nfunc k() { old(1) }\n", "p.patch": patch}
+    pkgsrc = "package bar\n\nvar V = 1\n"
+    want_rewritten = {"unnamed.go"}
+    for where in ("nothing", "vendor", "gopath", "home", "all-as-baz"):
+        root = ctx.scratch("c10env")
+        extra = {}
+        if where == "vendor":
+            extra[f"vendor/{path}/bar.go"] = pkgsrc
+        if where == "gopath":
+            extra[f"gp/src/{path}/bar.go"] = pkgsrc
+        if where == "home":
+            extra[f"home/go/src/{path}/bar.go"] = pkgsrc
+        if where == "all-as-baz":
+            for pre in ("vendor", "gp/src", "home/go/src"):
+                extra[f"{pre}/{path}/b.go"] = pkgsrc.replace("package bar", "package baz")
+        cl.write_tree(root, dict(files, **extra))
+        env = dict(os.environ, GOPATH=os.path.join(root, "gp"), HOME=os.path.join(root, "home"), GOFLAGS="", GO111MODULE="off")
+        names = [n for n in files if n.endswith(".go")]
+        for cwd, args in ((root, names), ("/", [os.path.join(root, n) for n in names])):
+            for n in names:
+                with open(os.path.join(root, n), "w") as f:
+                    f.write(files[n])
+            r = subprocess.run([ctx.gopatch, "-p", os.path.join(root, "p.patch")] + args, cwd=cwd, env=env, stdout=subprocess.PIPE, stderr=subprocess.PIPE, timeout=60)
+            ctx.evaluations += 1
+            ctx.count("guards_and_environment")
+            ctx.nontrivial.add(f"c10env:{where}:{cwd == root}")
+            got = {n for n in names if "renewed(" in open(os.path.join(root, n)).read()}
+            if got != want_rewritten or r.returncode != 0:
+                ctx.violation(f"an unnamed import in the patch is a guard that only an unnamed import of the file satisfies; with the sources of the package "
+                              f"placed: {where}, run from {'the project directory with relative paths' if cwd == root else '/ with absolute paths'}, "
+                              f"rewritten: {sorted(got)} (expected {sorted(want_rewritten)}), exit {r.returncode}",
+                              {"input": {"patch": patch, "files": {k: v for k, v in files.items() if k.endswith('.go')}, "on_disk_next_to_them": sorted(extra),
+                                         "env": {"GOPATH": "<root>/gp", "HOME": "<root>/home"}}, "stderr": r.stderr.decode("utf-8", "replace")[-400:]})
+        shutil.rmtree(root, ignore_errors=True)
+
 @prop("C10")
 def c10(ctx):
+    c10_environment(ctx)
     ctx.rule = ("exhaustive cross product: patch-side import form {absent, unnamed, named literal (same / other), identifier-metavariable "
                 "name, dot, blank} x file-side form {absent, unnamed, named same, named other, dot, blank} x package clause {none, "
                 "matching, other} x import layout {single, grouped with unrelated imports}, always on a file where the code pattern "
@@ -4544,6 +4787,7 @@ def c10(ctx):
                 "guards hold and the file is rewritten; distinct = distinct (patch, file).")
     # guards of later changes are evaluated on what the earlier ones left: a refused change leaves nothing (its package clause, its imports)
     refused_rewrites_family(ctx)
+    patch_sources_family(ctx)
     path = "example.com/pkg"
     pforms = {"absent": None, "unnamed": f'"{path}"', "named-same": f'pkg "{path}"', "named-other": f'other "{path}"',
               "metavar": f'nm "{path}"', "dot": f'. "{path}"', "blank": f'_ "{path}"'}
@@ -4776,6 +5020,7 @@ def c11(ctx):
     res = engine_family(ctx, "c11", {"imports", "decisions"}, n_quick=500)
     # the import edits of a change that is refused for the file are not made, the code edits of the others are
     refused_rewrites_family(ctx, {"status", "content", "decisions", "imports"})
+    patch_sources_family(ctx, {"status", "content", "decisions", "imports"})
     # the same cases through the library API (which parses the file itself): its import declarations must be the model's
     cases, want = [], {}
     for inp, orig, impl, model, same in res:
@@ -5013,6 +5258,7 @@ def c09(ctx):
     loader_tie(ctx)
     # "if any step fails, the combined run reports the failure and leaves the file untouched": command line and library
     refused_rewrites_family(ctx)
+    patch_sources_family(ctx)
     # CLI chain check
     rng = random.Random(ctx.seed)
     cases = [c for c in gen_cases(ctx, "c09", 150 if ctx.tier == "quick" else 3000, ctx.seed + 7, golden=False) if c.get("chain")]
